@@ -15,6 +15,7 @@ structure Hyp (mp : Maps) (n maxInc : Nat) (S : Nat → Bool) : Prop where
   short : (loopIndices mp n).length ≤ n - 1
   enough : majority n - 1 ≤ collectible mp n S
   inc : 4 ≤ maxInc
+  replace : mp.replaceOutdated = true
 
 theorem writerOf_some (mp : Maps) (n k j : Nat) (h : writerOf mp n k = some j) : k = j + mp.sdOff ∧ 1 ≤ j ∧ j < n := by
   unfold writerOf at h
@@ -169,7 +170,7 @@ theorem sigRec_eq (r : SigRec) (j : Nat) (d : Shared) (h1 : r.cs = d) (h2 : r.si
 
 /-- what a settled signer of the live set does while the shared data `d` is on chain and not expired -/
 theorem signerPublish_progress (mp : Maps) (j : Nat) (c : Chain) (d : Shared) (s1 : Signer)
-    (hs : s1.pendReg = false ∧ s1.pendSet = false) :
+    (hrep : mp.replaceOutdated = true) (hs : s1.pendReg = false ∧ s1.pendSet = false) :
     (c.sigDom (j + mp.sdOff) = false → (signerPublish mp j c d s1).2 = .regDom) ∧
     (c.sigDom (j + mp.sdOff) = true →
       (signerPublish mp j c d s1).2 = .setRec (signRec j d) ∨
@@ -184,7 +185,7 @@ theorem signerPublish_progress (mp : Maps) (j : Nat) (c : Chain) (d : Shared) (s
     · simp [hs.2]
     · rename_i r hr
       by_cases h1 : r.cs ≠ d
-      · rw [if_pos h1]; exact Or.inl rfl
+      · rw [if_pos h1, hrep]; exact Or.inl rfl
       · rw [if_neg h1]
         by_cases h2 : ¬ (r.sig.signer = j ∧ r.sig.over = d)
         · rw [if_pos h2]; exact Or.inl rfl
@@ -193,7 +194,7 @@ theorem signerPublish_progress (mp : Maps) (j : Nat) (c : Chain) (d : Shared) (s
           exact Or.inr ⟨rfl, by rw [hr, sigRec_eq r j d h1 h2.1 h2.2]⟩
 
 theorem signerOut_progress (mp : Maps) (n : Nat) (S : Nat → Bool) (nonce : Nat) (s : State) (j : Nat) (d : Shared)
-    (hj : IsSigner n S j) (hr : s.chain.roleAt = none) (htd : s.chain.txDom = true) (hrec : s.chain.txRec = some d)
+    (hrep : mp.replaceOutdated = true) (hj : IsSigner n S j) (hr : s.chain.roleAt = none) (htd : s.chain.txDom = true) (hrec : s.chain.txRec = some d)
     (hexp : ¬ s.chain.height > d.vub) (hset : (s.signer j).pendReg = false ∧ (s.signer j).pendSet = false) :
     (s.chain.sigDom (j + mp.sdOff) = false → (signerOut mp n (fairEnv S nonce) s j).2 = .regDom) ∧
     (s.chain.sigDom (j + mp.sdOff) = true →
@@ -209,7 +210,7 @@ theorem signerOut_progress (mp : Maps) (n : Nat) (S : Nat → Bool) (nonce : Nat
   rw [if_neg (by simp [htd])]
   simp only [hrec]
   rw [if_neg hexp]
-  apply signerPublish_progress
+  apply signerPublish_progress _ _ _ _ _ hrep
   split <;> simp [hset.1, hset.2]
 
 /-- a member outside the signers of `S` does nothing -/
@@ -425,13 +426,13 @@ theorem main_round (mp : Maps) (n maxInc : Nat) (S : Nat → Bool) (nonce : Nat)
       · rw [round_txRec, hnone]; exact hrec
       · intro j hj
         have hw := writerOf_signer mp n j hj.2.1 hj.2.2
-        have hp := signerOut_progress mp n S nonce s j d hj hg.norole htd hrec hexp (hg.sset j)
+        have hp := signerOut_progress mp n S nonce s j d H.replace hj hg.norole htd hrec hexp (hg.sset j)
         cases hsd : s.chain.sigDom (j + mp.sdOff) with
         | true => exact round_sigDom_keep mp n maxInc _ s _ hsd
         | false => exact round_sigDom_reg mp n maxInc _ s _ j hw (hp.1 hsd)
       · intro hdom j hj
         have hw := writerOf_signer mp n j hj.2.1 hj.2.2
-        have hp := signerOut_progress mp n S nonce s j d hj hg.norole htd hrec hexp (hg.sset j)
+        have hp := signerOut_progress mp n S nonce s j d H.replace hj hg.norole htd hrec hexp (hg.sset j)
         rcases hp.2 (hdom j hj) with h | ⟨h1, h2⟩
         · exact round_sigRec_set mp n maxInc _ s _ j _ hw h
         · rw [round_sigRec_none mp n maxInc _ s _ j hw h1]; exact h2
@@ -668,7 +669,8 @@ end
 
 /-! ## the index maps of the code under test (regenerated from deploy/notary.go) -/
 
-theorem current_eq : current = { lo := fun _ => 1, hi := fun n => n, domOff := 0, keyOff := 0, sdOff := 0, sorted := true } := rfl
+theorem current_eq : current =
+    { lo := fun _ => 1, hi := fun n => n, domOff := 0, keyOff := 0, sdOff := 0, sorted := true, replaceOutdated := true } := rfl
 
 theorem loopIndices_current (n : Nat) : loopIndices current n = List.range' 1 (n - 1) := rfl
 
@@ -709,7 +711,7 @@ theorem live_count (n : Nat) (S : Nat → Bool) (hn : 1 ≤ n) :
 /-- a majority of live members that includes the leader is enough for the maps of the code under test -/
 theorem hyp_current (n maxInc : Nat) (S : Nat → Bool) (hn : 2 ≤ n) (h0 : S 0 = true)
     (hmaj : majority n ≤ (List.range n).countP S) (hinc : 4 ≤ maxInc) : Hyp current n maxInc S := by
-  refine ⟨hn, h0, keysInRange_current n, ?_, ?_, hinc⟩
+  refine ⟨hn, h0, keysInRange_current n, ?_, ?_, hinc, rfl⟩
   · rw [loopIndices_current, List.length_range']
     exact Nat.le_refl _
   · rw [collectible_current]
@@ -729,7 +731,7 @@ theorem rounds_eq_run (mp : Maps) (n maxInc : Nat) (S : Nat → Bool) (nonce : N
 /-- The bootstrap completes for the live set `S` iff enough of its signers are collectible by the leader —
 generic in the index maps. -/
 theorem completes_iff (mp : Maps) (n maxInc : Nat) (S : Nat → Bool) (nonce h : Nat) (hn : 2 ≤ n) (h0 : S 0 = true)
-    (hr : KeysInRange mp n) (hs : (loopIndices mp n).length ≤ n - 1) (hinc : 4 ≤ maxInc) :
+    (hr : KeysInRange mp n) (hs : (loopIndices mp n).length ≤ n - 1) (hinc : 4 ≤ maxInc) (hrep : mp.replaceOutdated = true) :
     (∃ k, Completes mp n maxInc S nonce k (State.init h)) ↔ majority n - 1 ≤ collectible mp n S := by
   constructor
   · rintro ⟨k, hk⟩
@@ -742,12 +744,75 @@ theorem completes_iff (mp : Maps) (n maxInc : Nat) (S : Nat → Bool) (nonce h :
     rw [rounds_eq_run, hnone] at hk
     simp at hk
   · intro he
-    exact ⟨5, completes_from_init mp n maxInc S nonce ⟨hn, h0, hr, hs, he, hinc⟩ h⟩
+    exact ⟨5, completes_from_init mp n maxInc S nonce ⟨hn, h0, hr, hs, he, hinc, hrep⟩ h⟩
 
 /-- a committee of one: the single member designates itself in one round -/
 theorem solo_completes (mp : Maps) (maxInc : Nat) (S : Nat → Bool) (nonce h : Nat) (h0 : S 0 = true) :
     (rounds mp 1 maxInc S nonce 1 (State.init h)).chain.roleAt = some (h + 1) := by
   simp [rounds, round, leaderOut, fairEnv, h0, leaderStep, Chain.roleVisible, State.init, Chain.fresh, soloTick,
     Leader.init, applyBlock]
+
+/-! ## re-signing after the shared data was regenerated: replace, not append -/
+
+/-- where a signer's action replaces record #0 although a record is there, the code replaces outdated records
+or the record is not a genuine signature record for other shared data -/
+theorem signerPublish_setRec_on_record (mp : Maps) (j : Nat) (c : Chain) (d : Shared) (s1 : Signer) (r r' : SigRec)
+    (hrec : c.sigRec (j + mp.sdOff) = some r) (h : (signerPublish mp j c d s1).2 = .setRec r') :
+    mp.replaceOutdated = true ∨ (r.cs = d ∧ ¬ (r.sig.signer = j ∧ r.sig.over = d)) := by
+  unfold signerPublish at h
+  split at h
+  · split at h <;> simp at h
+  · simp only [hrec] at h
+    by_cases h1 : r.cs ≠ d
+    · rw [if_pos h1] at h
+      cases hr : mp.replaceOutdated with
+      | true => exact Or.inl rfl
+      | false => simp [hr] at h
+    · rw [if_neg h1] at h
+      simp only [Decidable.not_not] at h1
+      by_cases h2 : ¬ (r.sig.signer = j ∧ r.sig.over = d)
+      · exact Or.inr ⟨h1, h2⟩
+      · rw [if_neg h2] at h; simp at h
+
+/-- When outdated records are re-signed with `addRecord` (`replaceOutdated = false`), the FIRST signature a member
+publishes stays record #0 of its domain for ever, under every schedule: the leader can never again collect a
+valid signature from a member that signed shared data which has since been regenerated. -/
+theorem append_keeps_first_record (mp : Maps) (n maxInc : Nat) (S : Nat → Bool) (env : Env) (s : State) (k : Nat) (r : SigRec)
+    (hrep : mp.replaceOutdated = false) (hc : ChainInv mp n S s.chain) (hk : s.chain.sigRec k = some r) :
+    (round mp n maxInc env s).chain.sigRec k = some r := by
+  unfold round
+  simp only [applyBlock]
+  split
+  · rename_i j hw
+    obtain ⟨hkj, _, _⟩ := writerOf_some mp n k j hw
+    split
+    · rename_i r' hsa
+      exfalso
+      -- the signer replaced record #0 although one was there
+      unfold signerOut at hsa
+      simp only [] at hsa
+      split at hsa
+      · unfold signerStep at hsa
+        split at hsa
+        · simp at hsa
+        · unfold signerTick at hsa
+          split at hsa
+          · simp at hsa
+          · split at hsa
+            · simp at hsa
+            · rename_i d hd
+              split at hsa
+              · simp at hsa
+              · rcases signerPublish_setRec_on_record mp j s.chain d _ r r' (hkj ▸ hk) hsa with h | ⟨h1, h2⟩
+                · rw [hrep] at h; simp at h
+                · obtain ⟨j', d', hw', _, rfl⟩ := hc k r hk
+                  rw [hw] at hw'
+                  simp only [Option.some.injEq] at hw'
+                  subst hw'
+                  simp only [signRec] at h1 h2
+                  exact h2 ⟨trivial, h1⟩
+      · simp at hsa
+    · exact hk
+  · exact hk
 
 end NeoFS.NotaryBootstrap
